@@ -204,7 +204,20 @@ def regression_cases(first_id):
     ]
     for k, c in enumerate(out):
         c.update(id=first_id + k, vertex_singular=True, want_values=True, acc=list(range(len(c["obs"]))), regression=True)
-    return out
+    # bodies without volume through the functional interface (the classes refuse a side length of 0, the field functions document
+    # it as 'no field'): sheets in the three orientations, lines, a point; observers on the rim, at the corners, on the line, in the
+    # sheet, beside it and far away — every value is finite
+    fun = []
+    for dim in ([0, 2, 2], [2, 0, 2], [2, 2, 0], [0, 0, 2], [0, 3, 0], [0, 0, 0]):
+        a_ = [d_ / 2 for d_ in dim]
+        obsf = [[a_[0], a_[1], a_[2]], [a_[0], a_[1], 0.0], [a_[0], 0.0, a_[2]], [0.0, a_[1], a_[2]], [0.0, 0.0, 0.0], [a_[0], a_[1] * 0.3, a_[2] * 0.3], [0.3, 0.2, 0.1], [3.0, 2.0, 1.0],
+                [-a_[0], -a_[1], a_[2]], [a_[0] + 1e-12, a_[1], a_[2]]]
+        fun.append({"cls": "Cuboid", "variant": "functional-zero-volume", "kw": {"dimension": dim, "polarization": pol}, "obs": obsf})
+    # (a Cylinder of diameter 0 is not handled by its field function — NaN everywhere — and refused by the class: not a documented input)
+    fun.append({"cls": "Sphere", "variant": "functional-zero-volume", "kw": {"diameter": 0, "polarization": pol}, "obs": [[0, 0, 0], [1, 1, 1]]})
+    for k, c in enumerate(fun):
+        c.update(id=first_id + len(out) + k, vertex_singular=False, want_values=False, acc=[], regression=True, functional=True)
+    return out + fun
 
 
 ACC_TOL = 1e-6  # relative to max(|reference|, |polarization|); the earlier kernel was off by O(1) here, the repaired one is within ~1e-13
